@@ -9,6 +9,7 @@ CONSTANTS
   SlowSet = {}
   CfgWrite = TRUE
   NCl = 1
+  MaxSend = 1
 INVARIANT MonitorQuiet
 INVARIANT OneReceivePath
 INVARIANT LockDiscipline
